@@ -3,7 +3,7 @@
 From Coq Require Import List Bool Arith ZArith NArith Permutation.
 From XD Require Import lib.ListAux lib.Toposort model.Manager model.ManagerData
   proofs.ManagerIdx proofs.ManagerInv proofs.ManagerHist proofs.ManagerTrace proofs.ManagerDataInv.
-From XD Require Import model.TasksSem model.TasksSemData gen.GenTasks gen.GenTasksData proofs.TasksSrc proofs.TasksSrcData.
+From XD Require Import model.TasksSem model.TasksSemData gen.GenTasks gen.GenTasksData proofs.TasksSrc proofs.TasksSrcData lib.ToposortIter gen.GenSorting proofs.TasksSrcSorting.
 Import ListNotations.
 Local Open Scope nat_scope.
 
@@ -86,6 +86,24 @@ Theorem C02_find_tasks_is_source : forall (sd order : list path) (m : dmgr),
   src_find_tasks path_eqb sd order m = find_tasks path_eqb m sd order.
 Proof. exact src_find_tasks_eq. Qed.
 
+(* sorting.toposort / sorting._dfs AS WRITTEN (an explicit stack of (vertex, iterator) frames; gen/GenSorting.v checks on
+   every run that the source is, statement for statement, the text lib/ToposortIter.v models): on every graph closed
+   in a finite universe, with enough passes of the while loop the iterative search has emptied its stack and returns
+   exactly the recursive toposort that C02_toposort speaks about - and further passes change nothing *)
+Theorem C02_iterative_dfs_is_recursive : forall (K : Type) (eqb : K -> K -> bool),
+  (forall a b, eqb a b = true <-> a = b) ->
+  forall (g : K -> list K) (univ : list K), (forall u v, In u univ -> In v (g u) -> In v univ) ->
+  forall f start, incl start univ -> length univ < f ->
+  exists n, forall passes, n <= passes -> itoposort eqb g passes start = toposort eqb g f start.
+Proof. intros K eqb Hs g univ Hc f start. exact (itoposort_eq eqb Hs g univ Hc f start). Qed.
+
+(* ... in particular for the call made by find_taskids: the manager's rtasks graph, the fuel the model uses *)
+Theorem C02_toposort_is_source : forall (rt : @index path) (order : list path),
+  exists n, forall passes, n <= passes ->
+    src_toposort path_eqb (succs path_eqb rt) passes order =
+    toposort path_eqb (succs path_eqb rt) (S (graph_size rt + length order)) order.
+Proof. exact (src_toposort_eq path_eqb path_eqb_spec). Qed.
+
 Print Assumptions C02_toposort.
 Print Assumptions C02_find_taskids.
 Print Assumptions C02_assignment.
@@ -93,3 +111,5 @@ Print Assumptions C02_order_dag.
 Print Assumptions C02_nonvacuous.
 Print Assumptions C02_find_taskids_is_source.
 Print Assumptions C02_find_tasks_is_source.
+Print Assumptions C02_iterative_dfs_is_recursive.
+Print Assumptions C02_toposort_is_source.
